@@ -59,7 +59,27 @@ def order(ctx: Any) -> List[Ob]:
 
     oc, _ = traces(ctx, f, {}, eff)
     got = {strip_ret(t) for t in oc}
-    obs.append(ob(R, f, 'async_register_service', 'every path: HOST, START, PROBE, REGISTER, ANNOUNCE in this order', got == {('HOST', 'START', 'PROBE', 'REGISTER', 'ANNOUNCE')}, f'got {sorted(got)}'))
+    obs.append(ob(R, f, 'async_register_service', 'every path: START, PROBE, REGISTER, ANNOUNCE in this order', bool(got) and {tuple(x for x in t if x != 'HOST') for t in got} == {('START', 'PROBE', 'REGISTER', 'ANNOUNCE')}, f'got {sorted(got)}'))
+    # the default host name is the instance name, and the probe may rename the instance: the default must be derived from the
+    # FINAL name (after the last probe) and before the registry indexes the service by host.  `set_server_if_missing` keeps a
+    # server that is already set (side condition read from its body), so a derivation before the probe pins the old name.
+    info_cls = prog.cls('zeroconf._services.info.ServiceInfo')
+    ssm = info_cls.methods.get('set_server_if_missing')
+    if ssm is None:
+        raise AnalysisError('anchor vanished: ServiceInfo.set_server_if_missing')
+    keeps = any(isinstance(n, ast.If) and 'server' in norm(n.test) and 'None' in norm(n.test) for n in walk_local_ordered(ssm.node))
+
+    def host_ok(t: Any) -> bool:
+        if 'PROBE' not in t or 'REGISTER' not in t:
+            return True
+        lp = max(i for i, x in enumerate(t) if x == 'PROBE')
+        rg = t.index('REGISTER')
+        late = any(x == 'HOST' for x in t[lp + 1:rg])
+        early = any(x == 'HOST' for x in t[:lp])
+        return late and not (early and keeps)
+
+    badh = sorted(t for t in got if not host_ok(t))
+    obs.append(ob(R, f, 'info.set_server_if_missing()', 'the default host name is derived from the final name: after the conflict check (which may rename the service), before the registry insert, and not pinned earlier (a renamed service must not announce its SRV target and addresses under the conflicting name)', not badh, f'paths {badh}'))
     aw = [n for n in walk_local_ordered(f.node) if isinstance(n, ast.Await) and isinstance(n.value, ast.Call) and call_name(n.value) in ('async_wait_for_start', 'async_check_service')]
     obs.append(ob(R, f, 'await self.async_wait_for_start(); await self.async_check_service(...)', 'start-up and probing are awaited (completed) before the service is registered', len(aw) == 2))
     bc = [c for c in walk_local_ordered(f.node) if isinstance(c, ast.Call) and call_name(c) == '_async_broadcast_service']
